@@ -37,6 +37,7 @@ let engines : (string * (z list -> (z list * z list) list -> verdict)) list = [
   ("decode", chk_decode);
   ("batch", chk_batch);
   ("maptree", chk_maptree);
+  ("nested", chk_nested);
 ]
 
 let () =
